@@ -418,6 +418,9 @@ func (f *frame) builtin(bi *ssa.Builtin, cm *ssa.CallCommon, pos token.Pos, st *
 		dom, _, _, _ := g.TE.MapHeaps(cm.Args[0].Type())
 		// delete on nil map is a no-op
 		cur := st.Heap(dom)
+		if _, _, ks, _ := g.TE.MapHeaps(cm.Args[0].Type()); true {
+			c.cardStep(st, ks, fmt.Sprintf("(select %s %s)", cur, m.T), k.T, false)
+		}
 		st.heaps[dom] = c.defineHeap(dom, fmt.Sprintf("(ite (= %s nil) %s (store %s %s (store (select %s %s) %s false)))", m.T, cur, cur, m.T, cur, m.T, k.T))
 		return Val{Typ: resT}
 	case "min", "max":
@@ -481,7 +484,21 @@ func (f *frame) doAppend(cm *ssa.CallCommon, pos token.Pos, st *State, name stri
 	// Go: append(nil, <empty>) returns nil; our model returns a non-nil empty slice in that case only
 	// when cap is exceeded, which cannot happen for n = 0 (0 <= cap). Fine.
 	f.tagAlloc(st, id, et)
+	before := map[string]string{}
+	for _, h := range c.g.elemHeaps(et) {
+		before[h] = st.Heap(h)
+	}
 	f.appendHeaps(st, et, s.T, t.T, inplace, id)
+	// Consequences of the destination-indexed definition above, stated source-indexed so that E-matching has the terms
+	// (an invariant over the elements of the operand, or an existential over positions of the result, otherwise finds no
+	// instance): element i of the operand is element i of the result, and the first appended element is at index len(s).
+	for _, h := range c.g.elemHeaps(et) {
+		c.assume(st, fmt.Sprintf("(forall ((i Int)) (! (=> (and (<= 0 i) (< i (slen %s))) (= (select %s (selem %s i)) (select %s (selem %s i)))) :pattern ((selem %s i))))", s.T, st.Heap(h), res, before[h], s.T, s.T))
+		c.assume(st, fmt.Sprintf("(=> (>= %s 1) (= (select %s (selem %s (slen %s))) (select %s (selem %s 0))))", n, st.Heap(h), res, s.T, before[h], t.T))
+	}
+	// A consequence of the selem axiom, stated so that E-matching has the term: an append in place keeps every element
+	// location of the operand (without it, invariants triggered on elements of the old slice never fire on the new one).
+	c.assume(st, fmt.Sprintf("(forall ((i Int)) (! (=> %s (= (selem %s i) (selem %s i))) :pattern ((selem %s i))))", inplace, res, s.T, res))
 	return Val{T: res, Typ: slT}
 }
 
@@ -645,12 +662,38 @@ func (f *frame) execNext(in *ssa.Next, st *State) {
 // mapLen is the term for len(m) of a map: the cardinality of its key set (uninterpreted, >= 0).
 func (g *Gen) mapLen(mt types.Type, m string, view HeapView) string {
 	dom, _, ks, _ := g.TE.MapHeaps(mt)
+	name := g.cardUF(ks)
+	return fmt.Sprintf("(ite (= %s nil) 0 (%s (select %s %s)))", m, name, view.Heap(dom), m)
+}
+
+// cardUF declares the cardinality function of key sets of sort ks with the facts that hold for every set
+// (finite sets: the number of elements; infinite sets, which no Go map has: 1): it is >= 0, it is 0 exactly
+// for the empty set. How it changes under insertion/removal is NOT an axiom (it is false for infinite sets):
+// cardStep states it at the instructions that update a real -- finite -- Go map.
+func (g *Gen) cardUF(ks string) string {
 	name := "card_" + sanitize(ks)
 	if _, ok := g.ufDecl[name]; !ok {
 		g.UF(name, []string{fmt.Sprintf("(Array %s Bool)", ks)}, SInt)
+		wit := "cardwit_" + sanitize(ks)
+		g.UF(wit, []string{fmt.Sprintf("(Array %s Bool)", ks)}, ks)
 		g.axioms = append(g.axioms, fmt.Sprintf("(assert (forall ((s (Array %s Bool))) (! (>= (%s s) 0) :pattern ((%s s)))))", ks, name, name))
+		g.axioms = append(g.axioms, fmt.Sprintf("(assert (forall ((s (Array %s Bool))) (! (or (= (%s s) 0) (select s (%s s))) :pattern ((%s s)))))", ks, name, wit, name))
+		g.axioms = append(g.axioms, fmt.Sprintf("(assert (forall ((s (Array %s Bool)) (k %s)) (! (=> (select s k) (>= (%s s) 1)) :pattern ((%s s) (select s k)))))", ks, ks, name, name))
+		g.axioms = append(g.axioms, fmt.Sprintf("(assert (= (%s ((as const (Array %s Bool)) false)) 0))", name, ks))
 	}
-	return fmt.Sprintf("(ite (= %s nil) 0 (%s (select %s %s)))", m, name, view.Heap(dom), m)
+	return name
+}
+
+// cardStep: the key set of a Go map (finite) changes its size by one when a key is really added or removed.
+// before/after are the key sets around `m[k] = v` (add) or `delete(m, k)`.
+func (c *FnCtx) cardStep(st *State, ks, before, k string, add bool) {
+	name := c.g.cardUF(ks)
+	if add {
+		c.assume(st, fmt.Sprintf("(= (%s (store %s %s true)) (ite (select %s %s) (%s %s) (+ (%s %s) 1)))", name, before, k, before, k, name, before, name, before))
+	} else {
+		c.assume(st, fmt.Sprintf("(= (%s (store %s %s false)) (ite (select %s %s) (- (%s %s) 1) (%s %s)))", name, before, k, before, k, name, before, name, before))
+	}
+	c.assumed["len of a map is the size of its key set: 0 for an empty map, +1 when m[k] = v adds a key, -1 when delete removes one (Go maps are finite)"] = true
 }
 
 
